@@ -40,6 +40,17 @@ def families(tier, seed):
     sh = Shape(sys=co.CONTEXTS['twins'], name='twins')
     out.append(_w('let(rename)/replace_with_bdd', co.h_rename_replace, sh,
                   dict(pairs=[('x', 'x2'), ('x2', 'x'), ('b', 'b2')], bool='b', mismatch=('x', 'b'))))
+    ns = 6 if tier == 'quick' else 60
+    for be in (None, 'autoref'):
+        for cname, decl in co.CONTEXTS.items():
+            shc = Shape(sys=decl, name=cname)
+            for hn, h in (('exist/forall', co.h_quantify), ('let(values)', co.h_let_values),
+                          ('assign_from/apply', co.h_assign_apply)):
+                out.append(dict(name=f'real manager sweep [{be or "default"}] {hn} [{cname}]',
+                                run=harness.sweep(h, shc, {}, 'context', seed, ns, be), label='bounded'))
+        out.append(dict(name=f'real manager sweep [{be or "default"}] let(rename)/replace_with_bdd [twins]',
+                        run=harness.sweep(co.h_rename_replace, sh, dict(pairs=[('x', 'x2'), ('x2', 'x'), ('b', 'b2')], bool='b'),
+                                          'context', seed, 4 * ns, be), label='bounded'))
     n = 40 if tier == 'quick' else 400
     for cname in co.CONTEXTS:
         for be in ('cudd', 'autoref'):
